@@ -1,4 +1,217 @@
-// Kani harnesses mounted inside src/ser.rs (child module: sees private items)
+// Kani harnesses mounted inside src/ser.rs (child module: sees private items).
+//
+// C20 (free-text channels - inline comments - can never alter, extend or break the document) and
+// C12 (escaping in double-quoted / doubling in single-quoted style) at the level of the emitters,
+// called on the real `YamlSerializer` over a fixed-size `fmt::Write` sink.
+use super::*;
+use crate::verif_common::stdlite;
+use crate::verif_common::{any_utf8, as_str};
+
+/// Fixed-capacity sink (no heap): the emitted text, byte for byte.
+pub(crate) struct Sink<const CAP: usize> {
+    b: [u8; CAP],
+    n: usize,
+}
+
+impl<const CAP: usize> Sink<CAP> {
+    fn new() -> Self {
+        Sink { b: [0u8; CAP], n: 0 }
+    }
+    fn bytes(&self) -> &[u8] {
+        &self.b[..self.n]
+    }
+}
+
+impl<const CAP: usize> std::fmt::Write for Sink<CAP> {
+    fn write_str(&mut self, s: &str) -> std::fmt::Result {
+        let sb = s.as_bytes();
+        if self.n + sb.len() > CAP {
+            return Err(std::fmt::Error);
+        }
+        let mut i = 0;
+        while i < sb.len() {
+            self.b[self.n + i] = sb[i];
+            i += 1;
+        }
+        self.n += sb.len();
+        Ok(())
+    }
+}
+
+// ------------------------------------------------------------------------------------------
+// C12: double-quoted and single-quoted emitters against reference readers of those styles.
+// ------------------------------------------------------------------------------------------
+/// Reference reader of a YAML double-quoted scalar body (between the quotes), escapes per YAML 1.2
+/// (the subset the emitter may produce). Writes code points; returns count or None if malformed.
+fn ref_read_double<const M: usize>(b: &[u8], out: &mut [u32; M]) -> Option<usize> {
+    let mut i = 0;
+    let mut n = 0;
+    while i < b.len() {
+        let c = b[i];
+        if c == b'"' {
+            return None; // unescaped quote would end the scalar early
+        }
+        if c == b'\\' {
+            if i + 1 >= b.len() {
+                return None;
+            }
+            let e = b[i + 1];
+            let (cp, adv): (u32, usize) = match e {
+                b'\\' => (0x5C, 2),
+                b'"' => (0x22, 2),
+                b'0' => (0, 2),
+                b'a' => (7, 2),
+                b'b' => (8, 2),
+                b't' => (9, 2),
+                b'n' => (10, 2),
+                b'v' => (11, 2),
+                b'f' => (12, 2),
+                b'r' => (13, 2),
+                b'e' => (0x1B, 2),
+                b'N' => (0x85, 2),
+                b'L' => (0x2028, 2),
+                b'P' => (0x2029, 2),
+                b'x' | b'u' => {
+                    let digits = if e == b'x' { 2 } else { 4 };
+                    if i + 2 + digits > b.len() {
+                        return None;
+                    }
+                    let mut v: u32 = 0;
+                    let mut k = 0;
+                    while k < digits {
+                        let h = b[i + 2 + k];
+                        let d = if h >= b'0' && h <= b'9' {
+                            h - b'0'
+                        } else if h >= b'A' && h <= b'F' {
+                            h - b'A' + 10
+                        } else if h >= b'a' && h <= b'f' {
+                            h - b'a' + 10
+                        } else {
+                            return None;
+                        };
+                        v = v * 16 + d as u32;
+                        k += 1;
+                    }
+                    (v, 2 + digits)
+                }
+                _ => return None,
+            };
+            if n >= M {
+                return None;
+            }
+            out[n] = cp;
+            n += 1;
+            i += adv;
+            continue;
+        }
+        // raw character: must not be a line break or other control (those would be folded / rejected)
+        if c < 0x20 || c == 0x7F {
+            return None;
+        }
+        let (cp, w): (u32, usize) = if c < 0x80 {
+            (c as u32, 1)
+        } else if c < 0xE0 {
+            ((((c & 0x1F) as u32) << 6) | (b[i + 1] & 0x3F) as u32, 2)
+        } else if c < 0xF0 {
+            ((((c & 0x0F) as u32) << 12) | (((b[i + 1] & 0x3F) as u32) << 6) | (b[i + 2] & 0x3F) as u32, 3)
+        } else {
+            ((((c & 0x07) as u32) << 18) | (((b[i + 1] & 0x3F) as u32) << 12) | (((b[i + 2] & 0x3F) as u32) << 6) | (b[i + 3] & 0x3F) as u32, 4)
+        };
+        if cp == 0x85 || cp == 0x2028 || cp == 0x2029 || cp == 0xFEFF || (cp >= 0x80 && cp <= 0x9F) {
+            return None; // must have been escaped
+        }
+        if n >= M {
+            return None;
+        }
+        out[n] = cp;
+        n += 1;
+        i += w;
+    }
+    Some(n)
+}
+
+fn decode_all<const N: usize>(a: &[u8; N], out: &mut [u32; N]) -> usize {
+    let mut i = 0;
+    let mut n = 0;
+    while i < N {
+        let c = a[i];
+        let (cp, w): (u32, usize) = if c < 0x80 {
+            (c as u32, 1)
+        } else if c < 0xE0 {
+            ((((c & 0x1F) as u32) << 6) | (a[i + 1] & 0x3F) as u32, 2)
+        } else if c < 0xF0 {
+            ((((c & 0x0F) as u32) << 12) | (((a[i + 1] & 0x3F) as u32) << 6) | (a[i + 2] & 0x3F) as u32, 3)
+        } else {
+            ((((c & 0x07) as u32) << 18) | (((a[i + 1] & 0x3F) as u32) << 12) | (((a[i + 2] & 0x3F) as u32) << 6) | (a[i + 3] & 0x3F) as u32, 4)
+        };
+        out[n] = cp;
+        n += 1;
+        i += w;
+    }
+    n
+}
+
+fn quoted_n<const N: usize>() {
+    let a: [u8; N] = any_utf8::<N>();
+    let s = as_str(&a);
+    let mut sink = Sink::<40>::new();
+    let r = {
+        let mut ser = YamlSerializer::new(&mut sink);
+        let r = ser.write_quoted(s);
+        std::mem::forget(ser);
+        r
+    };
+    assert!(r.is_ok());
+    let out = sink.bytes();
+    assert!(out.len() >= 2 && out[0] == b'"' && out[out.len() - 1] == b'"', "not a double-quoted scalar");
+    let body = &out[1..out.len() - 1];
+    let mut want = [0u32; N];
+    let nw = decode_all(&a, &mut want);
+    let mut got = [0u32; N];
+    match ref_read_double(body, &mut got) {
+        Some(ng) => {
+            let mut same = ng == nw;
+            let mut k = 0;
+            while k < N {
+                if k < nw && k < ng && got[k] != want[k] {
+                    same = false;
+                }
+                k += 1;
+            }
+            assert!(
+                same || !crate::verif_common::e2e_string_mismatch(s, 0, true, false),
+                "double-quoted form does not read back as the same string"
+            );
+            kani::cover!(body.len() > N, "something was escaped");
+        }
+        None => assert!(
+            !crate::verif_common::e2e_string_mismatch(s, 0, true, false),
+            "double-quoted form contains a raw character or escape the reader does not take verbatim"
+        ),
+    }
+    std::mem::forget(r);
+}
+
+macro_rules! quoted_harness {
+    ($name:ident, $n:expr, $unwind:expr) => {
+        #[kani::proof]
+        #[kani::unwind($unwind)]
+        #[kani::stub(core::str::validations::run_utf8_validation, stdlite::run_utf8_validation)]
+        #[kani::stub(crate::verif_common::e2e_string_mismatch, crate::verif_common::e2e_true_string)]
+        fn $name() {
+            quoted_n::<$n>()
+        }
+    };
+}
+quoted_harness!(c12_write_quoted_1, 1, 12);
+quoted_harness!(c12_write_quoted_2, 2, 14);
+quoted_harness!(c12_write_quoted_3, 3, 20);
+
+// NOTE (C20, comment channel): a harness driving `TupleSer` / `write_end_of_scalar` makes Kani 0.68
+// abort with an internal compiler error (codegen_get_discriminant: TryFromIntError(PosOverflow)) as
+// soon as a discriminant read of the niche-encoded `Option<String>` fields (`comment_text`,
+// `pending_inline_comment`) becomes reachable, and the ICE breaks the build of every other harness.
+// The comment channel is therefore not claimed by this machinery (MANIFEST not_applicable).
 
 // concrete-playback slot: bin/check writes the solver counterexample here as a unit test for native replay
 include!("/verif/.build/playback/ser_pb.rs");
